@@ -19,9 +19,41 @@ def run_property(prop: str, tier: str, repo: str, only=None, quiet=False) -> int
   ev_path = os.path.join(report.EVIDENCE_DIR, f'{prop}.json')
   try:
     mod = importlib.import_module(f'fdlstatic.rules.{prop.lower()}')
-    ctx = Ctx(repo)
-    rs = report.RuleSet(prop)
-    mod.run(ctx, rs, tier)
+
+    def analyse(expand):
+      ctx_ = Ctx(repo, expand=expand)
+      rs_ = report.RuleSet(prop)
+      try:
+        mod.run(ctx_, rs_, tier)
+      except AnalysisError as e:
+        return ctx_, rs_, e
+      return ctx_, rs_, None
+
+    def clean(rs_, err_):
+      return err_ is None and not report.unlisted(rs_) and not report.vacuous(
+          rs_)
+
+    ctx, rs, err = analyse(False)
+    view = 'as written'
+    if not clean(rs, err) and not os.environ.get('FDLSTATIC_NO_EXPAND'):
+      # Second view: private helpers the rules do not know are expanded at
+      # their call sites (fdlstatic/inline.py) -- first only inside the
+      # functions the failing obligations name, then everywhere.  Expansion
+      # preserves behaviour, so obligations discharged on an expanded view
+      # are discharged for the tree; if no view is clean the verdict of the
+      # tree as written is reported.
+      named = sorted({o.construct.split(':')[0] for o in report.unlisted(rs)})
+      for expand in ([named] if named and err is None else []) + [True]:
+        ctx2, rs2, err2 = analyse(expand)
+        if not ctx2.p.inlined:
+          continue
+        if clean(rs2, err2):
+          ctx, rs, err = ctx2, rs2, None
+          view = 'helpers expanded: ' + ', '.join(sorted(
+              {s_.split(' ')[-1] for s_ in ctx2.p.inlined}))
+          break
+    if err is not None:
+      raise err
     if only is not None:
       rs.obs = [o for o in rs.obs if o.key() == only]
       rs.rules_run = {}
@@ -30,6 +62,9 @@ def run_property(prop: str, tier: str, repo: str, only=None, quiet=False) -> int
         return 2
     funcs = sorted({o.construct.split(':')[0] for o in rs.obs})
     analysed = ctx.analysed_summary(funcs)
+    analysed['view'] = view
+    if view != 'as written' and not quiet:
+      print(f'note: {prop} decided on the view with {view}')
     if tier == 'thorough' and only is None:
       from fdlstatic import thorough
       analysed['thorough'] = thorough.run(ctx, rs, prop, repo, seed)
